@@ -1,0 +1,27 @@
+//go:build verif
+
+package utils
+
+// Ghost lemma functions (build tag verif only): field laws as client code over the contracts of
+// Multiply / Divide / Invers. Verified by /verif/govc for ALL operands of every field that
+// satisfies gfOK (the table lemmas), i.e. without enumerating operand pairs.
+
+func lemmaMulComm(gf *GaloisField, a, b int) (int, int) {
+	return gf.Multiply(a, b), gf.Multiply(b, a)
+}
+
+func lemmaMulAssoc(gf *GaloisField, a, b, c int) (int, int) {
+	return gf.Multiply(gf.Multiply(a, b), c), gf.Multiply(a, gf.Multiply(b, c))
+}
+
+func lemmaInverse(gf *GaloisField, a int) int {
+	return gf.Multiply(a, gf.Invers(a))
+}
+
+func lemmaDivUndoesMul(gf *GaloisField, a, b int) int {
+	return gf.Divide(gf.Multiply(a, b), b)
+}
+
+func lemmaDivIsMulInverse(gf *GaloisField, a, b int) (int, int) {
+	return gf.Divide(a, b), gf.Multiply(a, gf.Invers(b))
+}
